@@ -252,8 +252,8 @@ def run_case(case, acc):
         _, v, fmt = case
         for scale in (1, 2, 10, 0.5, 2.5, 3.3, 0.125, 2.675, 1 / 3):
             for border in (None, 0, 1):
-                if scale in (0.125, 2.675, 1 / 3) and border == 0:
-                    continue
+                if scale in (0.125, 2.675, 1 / 3) and (border == 0 or T.size_of(v) > 25):
+                    continue                # scales that need three or more decimals: small symbols are enough
                 base = {}
                 if scale != 1:
                     base['scale'] = scale
